@@ -581,6 +581,12 @@ def run(tier, seed):
         for flag, nm in ((eqm, "eqmodel"), (keym, "keymodel")):
             if flag in ("a", "d"):
                 cnt[f"{nm}_{'agree' if flag == 'a' else 'drift'}"] += 1
+    # report the clauses round-robin, so that the first violations printed cover every failing clause
+    byc = {}
+    for v in viol:
+        byc.setdefault(v.key.split(":")[0], []).append(v)
+    viol = [v for grp in zip(*[lst + [None] * (max(map(len, byc.values())) - len(lst)) for lst in byc.values()]) for v in grp if v] \
+        if byc else []
     if len(samples) < 5:
         k = next(k for k in range(nreal) if cases[k]["kind"].startswith("mut:param-2pi") and cases[k]["hasop"])
         samples.append({"a": meta[k]["str"][0], "b": meta[k]["str"][1], "mutation": cases[k]["kind"], "equal": cases[k]["eab"],
